@@ -289,3 +289,21 @@ class _:
     ensures = {"C08.entries-dict-copy": "fresh(result) and forall(k, 'str', True, (k in result) == (k in self._entries_by_key) and implies(k in result, same(result[k], self._entries_by_key[k])))"}
     raises = {}
     modifies = []
+
+
+@contract(L + "add#single-quiet")
+class _:
+    """the splitter's call: with fail_on_duplicate_key False nothing is raised (duplicates come back wrapped)"""
+    for_callers = ["bibtexparser.splitter.Splitter.split"]
+    sorts = {"self": "ref:Library", "blocks": "ref:Block", "fail_on_duplicate_key": "bool"}
+    requires = {"wf": "WF(self)", "quiet": "not fail_on_duplicate_key"}
+    assumes = {"A-EQ": EQ_CONTRACT}
+    locals = {"_added_blocks": "list:ref:Block", "duplicate_keys": "list:str"}
+    loops = {1: dict(ADD_LOOPS[1], invariant=dict(ADD_LOOPS[1]["invariant"], **{"arg-unchanged": "len(blks) == 1 and fresh(blks)"})), 2: dict(ADD_LOOPS[2])}
+    ensures = {
+        "C08.add-position": "same(self._blocks, old(self._blocks)) and len(self._blocks) == old(len(self._blocks)) + 1 and forall(i, 0 <= i < old(len(self._blocks)), same(self._blocks[i], old(self._blocks[i])))",
+        "C08.add-element": "same(self._blocks[old(len(self._blocks))], blocks) or (cls_is(self._blocks[old(len(self._blocks))], 'DuplicateBlockKeyBlock') and fresh(self._blocks[old(len(self._blocks))]) and same(as_ref(self._blocks[old(len(self._blocks))], 'ref:DuplicateBlockKeyBlock')._ignore_error_block, blocks))",
+        "C08.wf-held": "held_indexed(self)", "C08.wf-typed": "index_typed(self)", "C08.wf-once": "keyed_once(self)",
+    }
+    raises = {}
+    modifies = ["@content(self._blocks)", "@content(self._entries_by_key)", "@content(self._strings_by_key)"]
